@@ -10,7 +10,8 @@ SEEDED = os.path.join(HERE, "seeded")
 
 def run_one(name: str) -> tuple[str, int, list[str]]:
     d = os.path.join(SEEDED, name)
-    prop = json.load(open(os.path.join(d, "meta.json")))["property"]
+    meta0 = json.load(open(os.path.join(d, "meta.json")))
+    prop = meta0.get("run_property") or meta0["property"]
     tmp = tempfile.mkdtemp(prefix="seedrun_")
     try:
         shutil.copytree("/repo/pyoda_time", os.path.join(tmp, "pyoda_time"))
